@@ -188,7 +188,7 @@ def judge(job):
 
 def run(ctx: Ctx):
     thorough = ctx.tier == "thorough"
-    r = ctx.tlc("Validator", "Validator.cfg", constants={"MaxItems": 2}, tag="docs")
+    r = ctx.tlc("Validator", "Validator.cfg", constants={"MaxItems": 2, "Double": "FALSE"}, tag="docs")
     recs = r.json_records()
     if not thorough:
         recs = recs[::2]
